@@ -321,6 +321,7 @@ func checkC06(p *Program, r *Report) {
 	checkEntryClamps(p, r, models)
 	checkEntryReplacement(p, r, models)
 	checkStaleStateReads(p, r, models)
+	checkDerivedCarried(p, r, models)
 	checkStatesHandedOn(p, r, models)
 	r.Floor("R06.1", "stateful kernels", nStateful, 17)
 	r.Floor("R06.3", "wrappers", nWrap, 41)
